@@ -56,6 +56,10 @@ def seeded(uni: qgen.Universe) -> List[Tuple[str, set]]:
     cs = list(uni.colls)
     a, b = cs[0], cs[1]
     return [
+        # a math function of several arguments whose LATER argument lives deeper than the first (inside a First() loop)
+        (f'ds.Select(lambda e: atan2(e.{a}("b1").Count(), e.{b}("b2").First().phi()))', {"first", "math2"}),
+        (f'ds.Select(lambda e: hypot(2.0, e.{a}("b1").First().pt()) + 1)', {"first", "math2"}),
+        (f'ds.Select(lambda e: (pow(e.{a}("b1").First().eta(), e.{b}("b1").First().eta()), e.{a}("b1").Count()))', {"first", "math2"}),
         (f'ds.Select(lambda e: e.{a}("b1").Select(lambda j: j.nTrk() % 2))', {"mod"}),
         (f'ds.Select(lambda e: e.{a}("b1").Select(lambda j: j.pt() % 2))', {"mod"}),
         (f'ds.Select(lambda e: e.{a}("b1").Count() % 3)', {"mod"}),
